@@ -234,11 +234,24 @@ def random_step(R: Draw, g: DocGen, doc: dict, n: int) -> dict:
         a = pos()
         b = pos() if wild else R.int(a, min(n, a + R.int(0, 8)))
         sl = rand_slice(R, g) if R.bool(0.7) else closed_slice(R, g)
+        if R.bool(0.3):
+            # both ends on structural landmarks (across sibling nodes, from a node's start to behind a later child),
+            # often a plain deletion: the joined halves have to be valid together
+            lm = landmarks(rs, doc)
+            a = R.choice(lm)
+            later = [x for x in lm if a <= x <= a + 24]
+            b = R.choice(later) if later else a
+            if R.bool(0.6):
+                sl = dict(EMPTY_SLICE)
         return {"k": k, "from": a, "to": b, "slice": sl, "structure": R.bool(0.2)}
     if k == "around" and R.bool(0.2):
         sg = sibling_gap_step(R, g, doc)
         if sg is not None:
             return sg
+    if k == "around" and R.bool(0.2):
+        ig = inline_gap_step(R, g, doc)
+        if ig is not None:
+            return ig
     if k == "around":
         a = pos()
         b = R.int(a, min(n, a + R.int(0, 10)))
@@ -383,6 +396,79 @@ def sibling_gap_step(R: Draw, g: DocGen, doc: dict) -> dict | None:
         sl = {"c": [P.mk(t, g.attrs(R, "node", t))], "os": 0, "oe": 0}
         ins = 1
     return {"k": "around", "from": frm, "to": to, "gapFrom": gap_from, "gapTo": gap_to, "slice": sl, "insert": ins, "structure": R.bool(0.3)}
+
+
+def inline_gap_step(R: Draw, g: DocGen, doc: dict) -> dict | None:
+    """An around-step INSIDE a textblock: a flat stretch of inline content is kept (the gap) while the characters
+    around it are replaced by a text slice, the gap landing at an offset inside the slice's text ("xABy" -> "pABq")."""
+    from ..ref import resolve as RR
+
+    rs = g.rs
+    tbs = [(k_, s_) for k_, s_, _par, _i, _d in RR.all_nodes(RR.N(doc, rs)) if rs.textblock.get(k_.t) and k_.size >= 4 and "text" in rx.first(rs.content[k_.t])]
+    if not tbs:
+        return None
+    k_, s_ = R.choice(tbs)
+    lo, hi = s_ + 1, s_ + k_.size - 1
+    frm = R.int(lo, hi - 1)
+    to = R.int(frm + 1, hi)
+    gap_from = R.int(frm, to)
+    gap_to = R.int(gap_from, to)
+    txt = g.text(R, 0.15) + g.text(R, 0.15)
+    from ..ref import u16
+
+    ins = R.int(0, u16.u16len(txt))
+    return {
+        "k": "around", "from": frm, "to": to, "gapFrom": gap_from, "gapTo": gap_to,
+        "slice": {"c": [P.mk("text", {}, None, g.mark_set(R, k_.t, 0.2), txt)], "os": 0, "oe": 0}, "insert": ins, "structure": False,
+    }
+
+
+def sibling_join_step(R: Draw, g: DocGen, doc: dict) -> dict | None:
+    """A plain replace (usually a deletion) from inside one node to inside a LATER SIBLING OF THE SAME TYPE, both ends
+    on child boundaries of those nodes: the two halves are joined into one node, whose content - a prefix of one valid
+    sequence plus a suffix of another - has to be checked as a whole (`paragraph block*` + `paragraph block*`)."""
+    from ..ref import resolve as RR
+
+    rs = g.rs
+    by_parent: dict[int, list] = {}
+    for k_, s_, par, _i, _d in RR.all_nodes(RR.N(doc, rs)):
+        if not k_.is_text and not rs.leaf[k_.t] and not rs.inline_content[k_.t]:
+            by_parent.setdefault(id(par), []).append((k_, s_))
+    pairs = []
+    for sibs in by_parent.values():
+        for i in range(len(sibs)):
+            for j in range(i + 1, len(sibs)):
+                if sibs[i][0].t == sibs[j][0].t:
+                    pairs.append((sibs[i], sibs[j]))
+    if not pairs:
+        return None
+    (n1, s1), (n2, s2) = R.choice(pairs)
+
+    def child_bounds(k_, s_: int) -> list[int]:  # noqa: ANN001
+        out = [s_ + 1]
+        q = s_ + 1
+        for c in k_.p["c"]:
+            q += P.size_of([c], rs.leaf_types)
+            out.append(q)
+        return out
+
+    a = R.choice(child_bounds(n1, s1))
+    b = R.choice(child_bounds(n2, s2))
+    sl = dict(EMPTY_SLICE) if R.bool(0.75) else closed_slice(R, g)
+    return {"k": "replace", "from": a, "to": b, "slice": sl, "structure": False}
+
+
+def landmarks(rs: RefSchema, doc: dict) -> list[int]:
+    """Structural landmarks of a plain document: before / after every node, start / end of every node's content."""
+    from ..ref import resolve as RR
+
+    n = P.size_of(doc["c"], rs.leaf_types)
+    out = {0, n}
+    for k_, s_, _par, _i, _d in RR.all_nodes(RR.N(doc, rs)):
+        out.update((s_, s_ + k_.size))
+        if not k_.is_text and not rs.leaf[k_.t]:
+            out.update((s_ + 1, s_ + k_.size - 1))
+    return sorted(x for x in out if 0 <= x <= n)
 
 
 def reopen_wrap_step(R: Draw, g: DocGen, doc: dict, d: dict) -> dict | None:
